@@ -114,11 +114,40 @@ Proof.
   try (tb T_parse_external_id; repeat tw2); try tfin.
 Qed.
 
+(* a cut inside a skipped declaration -- inside a quoted literal or not -- leaves the prefix run
+   at the end of the prefix: every iteration of the prefix run is an iteration of the full run *)
+Lemma T_consume_decl_loop : forall fuel2 fuel1 s1 s2 s2', (fuel2 <= fuel1)%nat ->
+  sync s1 s2 -> consume_decl_loop p fuel2 s2 = Ok s2' ->
+  (exists s1', consume_decl_loop text fuel1 s1 = Ok s1' /\ sync s1' s2') \/ NG (s_pos s2').
+Proof.
+  induction fuel2; intros fuel1 s1 s2 s2' Hfu Hs H; [discriminate|].
+  destruct fuel1 as [|fuel1]; [lia|]. pose proof Hs as (_ & W2 & _).
+  cbn [consume_decl_loop] in *. cbv zeta in *.
+  apply bind_ok in H. destruct H as [c [Hc H]]. cbv beta in H.
+  apply bind_ok in H. destruct H as [sa [Ha H]]. cbv beta in H.
+  pose proof (mv_skip_bytes _ (fun x => negb (x =? 62) && negb (x =? 34) && negb (x =? 39)) s2 W2) as (Wk & _ & Pk).
+  pose proof (mv_advance _ _ _ _ Ha Wk) as (Wa & _ & Pa).
+  assert (Hpos : s_pos sa <= s_pos s2').
+  { destruct (c =? 62); [inversion H; subst; lia|].
+    apply bind_ok in H. destruct H as [sb [Hb H]]. cbv beta in H.
+    pose proof (mv_skip_bytes _ (fun y => negb (y =? c)) sa Wa) as (Wq & _ & Pq).
+    pose proof (mv_consume_byte _ _ _ _ Hb Wq) as (Wb & _ & Pb).
+    pose proof (mv_consume_decl_loop _ _ _ _ H Wb) as (_ & _ & Pc). lia. }
+  tsk. tcb. tbe T_advance.
+  destruct (c =? 62); [inversion H; subst; tfin|].
+  apply bind_ok in H. destruct H as [sb [Hb H]]. cbv beta in H.
+  pose proof (mv_skip_bytes _ (fun y => negb (y =? c)) sa Wa) as (Wq & _ & Pq).
+  pose proof (mv_consume_byte _ _ _ _ Hb Wq) as (Wb & _ & Pb).
+  pose proof (mv_consume_decl_loop _ _ _ _ H Wb) as (_ & _ & Pc).
+  tsk. tbe E_consume_byte.
+  eapply IHfuel2; [|eassumption|eassumption]. lia.
+Qed.
+
 Lemma T_consume_decl s1 s2 s2' : sync s1 s2 -> consume_decl p s2 = Ok s2' ->
   (exists s1', consume_decl text s1 = Ok s1' /\ sync s1' s2') \/ NG (s_pos s2').
 Proof.
-  intros Hs H. pose proof Hs as (_ & W2 & _). unfold consume_decl in *. cbv zeta in *. posfacts.
-  tsk. tbe E_consume_byte. tfin.
+  intros Hs H. unfold consume_decl in *. eapply T_consume_decl_loop; [|exact Hs|exact H].
+  destruct (sync_rest _ _ Hn Hbn _ _ Hs) as [R _]. rewrite R, firstn_length. lia.
 Qed.
 
 Lemma T_parse_doctype_start s1 s2 s2' : sync s1 s2 -> parse_doctype_start p s2 = Ok s2' ->
